@@ -66,7 +66,10 @@ class ZorgFileCompiler(ZorgFileListener):
         self._s = _ZorgFileCompilerState()
 
     def enterArea(self, ctx: ZorgFileParser.AreaContext) -> None:  # noqa: D102
-        self._add_tag("areas", ctx.children[1].getText())
+        child_text = _second_child_text(ctx)
+        if child_text is None:
+            return
+        self._add_tag("areas", child_text)
 
     def enterBase_note(
         self, ctx: ZorgFileParser.Base_noteContext
@@ -98,7 +101,10 @@ class ZorgFileCompiler(ZorgFileListener):
     def enterContext(
         self, ctx: ZorgFileParser.ContextContext
     ) -> None:  # noqa: D102
-        self._add_tag("contexts", ctx.children[1].getText())
+        child_text = _second_child_text(ctx)
+        if child_text is None:
+            return
+        self._add_tag("contexts", child_text)
 
     def enterDate(self, ctx: ZorgFileParser.DateContext) -> None:  # noqa: D102
         get_datetime = partial(
@@ -165,7 +171,10 @@ class ZorgFileCompiler(ZorgFileListener):
     def enterGlobal_link(
         self, ctx: ZorgFileParser.Global_linkContext
     ) -> None:  # noqa: D102
-        self._add_tag("links", f"global:{ctx.children[1].getText()}")
+        child_text = _second_child_text(ctx)
+        if child_text is None:
+            return
+        self._add_tag("links", f"global:{child_text}")
 
     def enterHead(self, ctx: ZorgFileParser.HeadContext) -> None:  # noqa: D102
         del ctx
@@ -215,24 +224,36 @@ class ZorgFileCompiler(ZorgFileListener):
     def enterLocal_link(
         self, ctx: ZorgFileParser.Local_linkContext
     ) -> None:  # noqa: D102
-        local_id = ctx.children[1].getText()
+        child_text = _second_child_text(ctx)
+        if child_text is None:
+            return
+        local_id = child_text
         # HACK: Ignore completed checklists items.
         if local_id == "X":
             return
         self._add_tag("links", f"local:{local_id}")
 
     def enterLink(self, ctx: ZorgFileParser.LinkContext) -> None:  # noqa: D102
-        self._add_tag("links", ctx.children[1].getText())
+        child_text = _second_child_text(ctx)
+        if child_text is None:
+            return
+        self._add_tag("links", child_text)
 
     def enterPerson(
         self, ctx: ZorgFileParser.PersonContext
     ) -> None:  # noqa: D102
-        self._add_tag("people", ctx.children[1].getText())
+        child_text = _second_child_text(ctx)
+        if child_text is None:
+            return
+        self._add_tag("people", child_text)
 
     def enterProject(
         self, ctx: ZorgFileParser.ProjectContext
     ) -> None:  # noqa: D102
-        self._add_tag("projects", ctx.children[1].getText())
+        child_text = _second_child_text(ctx)
+        if child_text is None:
+            return
+        self._add_tag("projects", child_text)
 
     def enterPriority(
         self, ctx: ZorgFileParser.PriorityContext
@@ -248,7 +269,10 @@ class ZorgFileCompiler(ZorgFileListener):
     def enterRef_link(
         self, ctx: ZorgFileParser.Ref_linkContext
     ) -> None:  # noqa: D102
-        self._add_tag("links", f"ref:{ctx.children[1].getText()}")
+        child_text = _second_child_text(ctx)
+        if child_text is None:
+            return
+        self._add_tag("links", f"ref:{child_text}")
 
     def enterSimple_prop(
         self, ctx: ZorgFileParser.Simple_propContext
@@ -288,7 +312,10 @@ class ZorgFileCompiler(ZorgFileListener):
     def enterZid_link(
         self, ctx: ZorgFileParser.Zid_linkContext
     ) -> None:  # noqa: D102
-        self._add_tag("links", f"zid:{ctx.children[1].getText()}")
+        child_text = _second_child_text(ctx)
+        if child_text is None:
+            return
+        self._add_tag("links", f"zid:{child_text}")
 
     def exitBase_todo(
         self, ctx: ZorgFileParser.Base_todoContext
@@ -546,6 +573,18 @@ class ZorgFileCompiler(ZorgFileListener):
             assert self._s.block is not None
             note = Note(body, file_path=self.page.path, **kwargs)
             self._s.block.notes.append(note)
+
+
+def _second_child_text(ctx: Any) -> Optional[str]:
+    """Returns the text of {ctx}'s second child, if it has one.
+
+    After a syntax error, ANTLR's error recovery can hand the listener a
+    context that is missing children (e.g. '[#' with nothing after it).
+    """
+    children = ctx.children or []
+    if len(children) < 2:
+        return None
+    return str(children[1].getText())
 
 
 def _get_default_tags_map() -> _TagDict:
